@@ -36,12 +36,48 @@ type fieldCover struct {
 
 // resetEffects collects, for method fn with receiver recv, which fields of the
 // receiver are re-initialised, following callees on the same receiver.
-func resetEffects(p *Program, fn *ssa.Function, sn string, cover map[string]*fieldCover, depth int, seen map[*ssa.Function]bool) {
+func resetEffects(p *Program, fn *ssa.Function, sn string, cover map[string]*fieldCover, depth int, seen map[*ssa.Function]bool, before ...map[string]bool) {
 	if fn == nil || len(fn.Blocks) == 0 || depth > 3 || seen[fn] {
 		return
 	}
 	seen[fn] = true
 	recv := fn.Params[0]
+	// fields of the receiver that may already have been stored when an instruction of fn runs:
+	// stored before fn was called (handed down), or on a path inside fn
+	storedBefore := func(at ssa.Instruction) map[string]bool {
+		out := map[string]bool{}
+		for _, m := range before {
+			for k := range m {
+				out[k] = true
+			}
+		}
+		reach := blocksReaching(at.Block())
+		eachInstr(fn, func(b *ssa.BasicBlock, in ssa.Instruction) {
+			st, ok := in.(*ssa.Store)
+			if !ok {
+				return
+			}
+			s, f, base, ok := fieldOf(st.Addr)
+			if !ok || s != sn || root(base) != ssa.Value(recv) {
+				return
+			}
+			if (b == at.Block() && instrIndexIn(in) < instrIndexIn(at)) || (b != at.Block() && reach[b]) || (b == at.Block() && reach[b]) {
+				out[f] = true
+			}
+		})
+		return out
+	}
+	// boundCovers: a loop over len(bf) reaches every element of f (bf != f) when len(bf) >= len(f) by
+	// construction and bf has not been stored on the way to the loop
+	boundCovers := func(bf, f string, at ssa.Instruction) bool {
+		if bf == "?" || bf == "" {
+			return false
+		}
+		if storedBefore(at)[bf] {
+			return false
+		}
+		return lenAtLeast(p, sn, bf, f)
+	}
 	isRecvField := func(addr ssa.Value) (string, bool) {
 		s, f, base, ok := fieldOf(addr)
 		if ok && s == sn && root(base) == ssa.Value(recv) {
@@ -85,7 +121,7 @@ func resetEffects(p *Program, fn *ssa.Function, sn string, cover map[string]*fie
 			// element store: f[i] = zero, in a loop over all of f
 			if ia, ok := x.Addr.(*ssa.IndexAddr); ok {
 				if s, f, base, ok := loadedField(ia.X); ok && s == sn && root(base) == ssa.Value(recv) {
-					if bf, known := loopBoundField(ia.Index, sn, recv); known && bf != f {
+					if bf, known := loopBoundField(ia.Index, sn, recv); known && bf != f && !boundCovers(bf, f, in) {
 						set(f, "element store in "+funcShortName(fn)+" in a loop bounded by len("+bf+"), not len("+f+")", "truncated", in)
 					} else {
 						set(f, "element store in "+funcShortName(fn), "zeroed", in)
@@ -130,7 +166,7 @@ func resetEffects(p *Program, fn *ssa.Function, sn string, cover map[string]*fie
 					kind := "zeroed"
 					if u, ok := first.(*ssa.UnOp); ok {
 						if ia, ok := u.X.(*ssa.IndexAddr); ok {
-							if bf, known := loopBoundField(ia.Index, sn, recv); known && bf != f {
+							if bf, known := loopBoundField(ia.Index, sn, recv); known && bf != f && !boundCovers(bf, f, in) {
 								kind = "truncated"
 							}
 						}
@@ -140,10 +176,196 @@ func resetEffects(p *Program, fn *ssa.Function, sn string, cover map[string]*fie
 			}
 			// same-receiver helper
 			if callee != nil && p.InZap(callee) && callee.Signature.Recv() != nil && len(cc.Args) > 0 && root(cc.Args[0]) == ssa.Value(recv) {
-				resetEffects(p, callee, sn, cover, depth+1, seen)
+				resetEffects(p, callee, sn, cover, depth+1, seen, storedBefore(x))
 			}
 		}
 	})
+}
+
+// blocksReaching: the blocks from which b can be reached over at least one edge.
+func blocksReaching(b *ssa.BasicBlock) map[*ssa.BasicBlock]bool {
+	out := map[*ssa.BasicBlock]bool{}
+	work := append([]*ssa.BasicBlock(nil), b.Preds...)
+	for len(work) > 0 {
+		x := work[len(work)-1]
+		work = work[:len(work)-1]
+		if out[x] {
+			continue
+		}
+		out[x] = true
+		work = append(work, x.Preds...)
+	}
+	return out
+}
+
+// lenAtLeast decides, from every store to the two slice fields anywhere in the package, that
+// len(x.big) >= len(x.small) holds whenever no method of the struct is running:
+//   - small is only ever truncated (nil, [:0]), cut or made to len(big), or grown by one element in a
+//     function that has first grown big by one element (and cannot grow small twice for that);
+//   - big only grows (append), except in functions that also truncate small.
+//
+// Anything else: not decided here (false).
+func lenAtLeast(p *Program, sn, big, small string) bool {
+	isLoadOf := func(v ssa.Value, f string) bool {
+		s, ff, _, ok := loadedField(v)
+		return ok && s == sn && ff == f
+	}
+	lenOf := func(v ssa.Value, f string) bool {
+		if cv, ok := v.(*ssa.Convert); ok {
+			v = cv.X
+		}
+		call, ok := v.(*ssa.Call)
+		if !ok {
+			return false
+		}
+		if b, ok := call.Call.Value.(*ssa.Builtin); !ok || b.Name() != "len" {
+			return false
+		}
+		return isLoadOf(call.Call.Args[0], f)
+	}
+	growsByOne := func(v ssa.Value, f string) bool {
+		switch x := v.(type) {
+		case *ssa.Call:
+			if b, ok := x.Call.Value.(*ssa.Builtin); ok && b.Name() == "append" && len(x.Call.Args) == 2 && isLoadOf(x.Call.Args[0], f) {
+				// append(f, one): the variadic argument is a slice of a one-element array
+				if sl, ok := x.Call.Args[1].(*ssa.Slice); ok {
+					if al, ok := sl.X.(*ssa.Alloc); ok {
+						if at, ok := derefType(al.Type()).Underlying().(*types.Array); ok && at.Len() == 1 {
+							return true
+						}
+					}
+				}
+			}
+		case *ssa.Slice:
+			// f[:len(f)+1]
+			if isLoadOf(x.X, f) && x.Low == nil {
+				if bo, ok := x.High.(*ssa.BinOp); ok && bo.Op == token.ADD {
+					if k, ok := constInt64(bo.Y); ok && k == 1 && lenOf(bo.X, f) {
+						return true
+					}
+				}
+			}
+		}
+		return false
+	}
+	type site struct {
+		st *ssa.Store
+		fn *ssa.Function
+	}
+	var bigStores, smallStores []site
+	for _, fn := range p.ZapFuncs {
+		eachInstr(fn, func(_ *ssa.BasicBlock, in ssa.Instruction) {
+			st, ok := in.(*ssa.Store)
+			if !ok {
+				return
+			}
+			s, f, _, ok := fieldOf(st.Addr)
+			if !ok || s != sn {
+				return
+			}
+			if f == big {
+				bigStores = append(bigStores, site{st, fn})
+			}
+			if f == small {
+				smallStores = append(smallStores, site{st, fn})
+			}
+		})
+	}
+	truncates := func(v ssa.Value, f string) bool {
+		if isNilConst(v) {
+			return true
+		}
+		if sl, ok := v.(*ssa.Slice); ok && isLoadOf(sl.X, f) {
+			if h, ok := constInt64(sl.High); ok && h == 0 {
+				return true
+			}
+		}
+		return false
+	}
+	var truncatesSmallIn func(fn *ssa.Function, depth int) bool
+	truncatesSmallIn = func(fn *ssa.Function, depth int) bool {
+		if depth > 3 || fn.Signature.Recv() == nil || len(fn.Params) == 0 {
+			return false
+		}
+		found := false
+		eachInstr(fn, func(_ *ssa.BasicBlock, in ssa.Instruction) {
+			switch x := in.(type) {
+			case *ssa.Store:
+				if s, f, base, ok := fieldOf(x.Addr); ok && s == sn && f == small && root(base) == ssa.Value(fn.Params[0]) && truncates(x.Val, small) {
+					found = true
+				}
+			case ssa.CallInstruction:
+				if callee := staticCallee(x); callee != nil && p.InZap(callee) && callee.Signature.Recv() != nil && len(x.Common().Args) > 0 &&
+					root(x.Common().Args[0]) == ssa.Value(fn.Params[0]) && truncatesSmallIn(callee, depth+1) {
+					found = true
+				}
+			}
+		})
+		return found
+	}
+	for _, b := range bigStores {
+		v := b.st.Val
+		if call, ok := v.(*ssa.Call); ok {
+			if bi, ok := call.Call.Value.(*ssa.Builtin); ok && bi.Name() == "append" && isLoadOf(call.Call.Args[0], big) {
+				continue // grows
+			}
+		}
+		if !truncatesSmallIn(b.fn, 0) {
+			return false
+		}
+	}
+	for _, sm := range smallStores {
+		v := sm.st.Val
+		switch {
+		case truncates(v, small):
+			continue
+		case growsByOne(v, small):
+			// a growth of big dominates this store, and this store cannot run twice without it
+			okPair := false
+			for _, b := range bigStores {
+				if b.fn != sm.fn || !growsByOne(b.st.Val, big) {
+					continue
+				}
+				bb, sb := b.st.Block(), sm.st.Block()
+				if !(bb == sb || bb.Dominates(sb)) {
+					continue
+				}
+				// no cycle through sb that avoids bb
+				seen := map[*ssa.BasicBlock]bool{bb: true}
+				work := append([]*ssa.BasicBlock(nil), sb.Succs...)
+				cyc := false
+				for len(work) > 0 {
+					x := work[len(work)-1]
+					work = work[:len(work)-1]
+					if seen[x] {
+						continue
+					}
+					seen[x] = true
+					if x == sb {
+						cyc = true
+						break
+					}
+					work = append(work, x.Succs...)
+				}
+				if bb == sb || !cyc {
+					okPair = true
+				}
+			}
+			if !okPair {
+				return false
+			}
+		default:
+			// cut or made to len(big)
+			if sl, ok := v.(*ssa.Slice); ok && isLoadOf(sl.X, small) && sl.Low == nil && sl.High != nil && lenOf(sl.High, big) {
+				continue
+			}
+			if mk, ok := v.(*ssa.MakeSlice); ok && lenOf(mk.Len, big) {
+				continue
+			}
+			return false
+		}
+	}
+	return len(bigStores) > 0 && len(smallStores) > 0
 }
 
 // elementOfField: v is an element of recv.<field> (range value, index).
